@@ -145,15 +145,21 @@ def valid_dfa(F, R):
         for arm in ('Packet:Subscribe', 'Packet:Unsubscribe'):
             reg = d.arm(arm)
             b = d.call
-            anys = [(bi, t) for bi, t in b.calls_to(r'as std::iter::Iterator>::any') if bi in reg]
+            anys = [(bi, t) for bi, t in b.calls_to(r'as std::iter::Iterator>::(any|all)$|::Iterator::(any|all)$') if bi in reg]
             ok = False
             for bi, t in anys:
-                # the closure passed to this `any` calls topic::is_valid
+                # the closure passed to this `any` (`all`) calls topic::is_valid - or is topic::is_valid itself
                 og = Origin(b).of_operand(t['args'][1]) if len(t['args']) > 1 else set()
                 defs = {l[1] for l in og if l[0] == 'agg'}
                 cl = [x for x in F.descendants(b) if x.path in defs and any(True for _ in x.calls_to(r'^topic::is_valid$'))]
+                fc_ = op_const(t['args'][1]) if len(t['args']) > 1 else None
+                if fc_ and re.search(r'^topic::is_valid$', fc_.get('res') or fc_.get('fn') or ''):
+                    cl = [b]
                 r = call_bool_branch(b, bi)
                 if cl and r and r[0] != 'discr':
+                    is_all = bool(re.search(r'::all$', callee_name(t) or ''))
+                    inv_t, val_t = (r[2], r[1]) if is_all else (r[1], r[2])
+                    r = (r[0], inv_t, val_t)
                     treg = b.reachable(r[1], avoid=[r[2]])
                     ok = any(s['rv']['variant'] == 'Subs_4_7_1' for xb, j, s in agg_sites(b, r'^error::SpecViolation$') if xb in treg)
                     hs = [xb for xb, xt in d.call_sites(b, r'Inner::<C>::control|Inner::<C>::control_pkt') if xb in treg]
